@@ -14,7 +14,7 @@ cp $SRC/patch.diff $DST/patch.diff
 cp $SRC/demo_test.go $DST/demo_test.go.txt 2>/dev/null
 cp $SRC/notes.md $DST/notes.md 2>/dev/null
 D=$(mktemp -d /tmp/confirm.XXXXXX)
-rsync -a --exclude .git --exclude _out /repo/ $D/
+if [ -n "${COMMIT:-}" ]; then git -C /repo archive $COMMIT | tar -x -C $D; else rsync -a --exclude .git --exclude _out /repo/ $D/; fi
 cd $D && git init -q
 applies=no; builds=no; suite=unknown; demo_with=unknown; demo_without=unknown
 git add -A >/dev/null 2>&1; git -c user.email=a@b -c user.name=x commit -qm base >/dev/null 2>&1
@@ -45,7 +45,8 @@ python3 - "$P" "$I" "$applies" "$builds" "$suite" "$demo_with" "$demo_without" "
 import json,sys
 P,I,applies,builds,suite,dw,dwo,caught,rules=sys.argv[1:10]
 import subprocess
-commit=subprocess.run("git -C /repo log --format=%h -1",shell=True,capture_output=True,text=True).stdout.strip()
+import os
+commit=os.environ.get("COMMIT") or subprocess.run("git -C /repo log --format=%h -1",shell=True,capture_output=True,text=True).stdout.strip()
 json.dump({"property":P,"index":int(I),"repo_commit":commit,"patch":"patch.diff","demonstration":"demo_test.go.txt (place as leader/zz_demo_test.go)",
  "confirmed":{"patch_applies":applies,"builds":builds,"unedited_suite_with_change":suite,"demo_with_change":dw,"demo_on_clean_tree":dwo},
  "what_it_needs":"see notes.md (written by the sub-agent that produced the change)",
